@@ -593,6 +593,17 @@ def _execute(sysm, clock, ops, work, tier, probes, tr, distinct):
         else:
             gens_reg = [(g, plug_cfg)]
         verdict, why = sysm.reference_verdict(srcdir, gens_reg, strip)
+        if verdict != "unparsable" and len(gens_reg) > 1:
+            # A reused manager: whether checks registered for EARLIER generators are still "registered" for this command is
+            # not fixed by the property (the pinned tree accumulates them; a per-command verifier would not). Certainly
+            # registered: the general checks and this generator's. Judge only when both readings agree.
+            v_min, why_min = sysm.reference_verdict(srcdir, gens_reg[-1:], strip)
+            if v_min != verdict:
+                probes["reused_manager_verdict_depends_on_accumulation"] += 1
+                if tr is not None:
+                    tr.add("gen_ambiguous", g=g, inj=str(inj), verdict=[verdict, v_min])
+                # still execute the command (it is part of the history), but do not judge it
+                verdict = "ambiguous"
         if verdict == "unparsable":
             probes["generated_schema_unparsable"] += 1
             continue
@@ -658,6 +669,10 @@ def _execute(sysm, clock, ops, work, tier, probes, tr, distinct):
         if verdict == "crashed":
             probes["check_crashed"] += 1
             continue
+        if verdict == "ambiguous":
+            if spy.calls and not crashed:
+                had_success = True
+            continue
         if verdict == "reject":
             probes["reject:" + g] += 1
             if had_success:
@@ -683,7 +698,7 @@ def _execute(sysm, clock, ops, work, tier, probes, tr, distinct):
                     if api_result is None or not (hasattr(api_result, "is_err") and api_result.is_err()):
                         viol.append(("rejection_not_reported", g, f"{where}: generate() returned {api_result!r}, not an Err", oi))
                 else:
-                    if "Error" not in text and cli_exit == 0:
+                    if not text.strip() and cli_exit == 0:
                         viol.append(("rejection_not_reported", g, f"{where}: CLI printed no diagnostic: {text[:120]!r}", oi))
         else:   # accept
             if spy.raised or (spy.calls and spy.returned is None):
@@ -711,8 +726,10 @@ def _execute(sysm, clock, ops, work, tier, probes, tr, distinct):
                     allowed_dirs.add(d_)
                     d_ = os.path.dirname(d_)
             outside = [k for k in created_or_modified if k not in rel and k not in allowed_dirs]
+            # events on paths the plug-in did not return count only if such a path exists before or after the command:
+            # a transient file (write-to-temporary-then-rename) leaves exactly the returned files behind
             ev_outside = [e for e in mut_events if e[1] not in rel and e[1] not in allowed_dirs and e[1] != "."
-                          and e[0] not in ("os.remove", "os.unlink")]
+                          and e[0] not in ("os.remove", "os.unlink") and (e[1] in a or e[1] in b)]
             if outside:
                 viol.append(("wrote_unreturned_path", g, f"{where}: created/modified {outside[:5]} which the plug-in did not return", oi))
             elif ev_outside:
